@@ -181,9 +181,13 @@ static int c37_ref(const u8 *m, int len)
 			if (r == 0) return C37_DROP;
 			if (nx + 10 > len) return C37_DROP;
 			type = dnsref_u16(m + nx); klass = dnsref_u16(m + nx + 2); rdlen = dnsref_u16(m + nx + 8);
-#ifndef C37_LENIENT_RDATA
-			if (nx + 10 + (int)rdlen > len) return C37_DROP; /* rdata runs past the message */
+			if (nx + 10 + (int)rdlen > len) { /* rdata runs past the message */
+#ifdef C37_LENIENT_RDATA
+				return C37_UNKNOWN; /* finding C37-truncated-rdata decided by the strict obligation */
+#else
+				return C37_DROP;
 #endif
+			}
 			off = nx + 10 + (int)rdlen;
 			if (sec == 2 && type == 41 && !c37_ref_opt) {
 				c37_ref_opt = 1; c37_ref_udp = klass > 512 ? (int)klass : 512;
@@ -240,7 +244,9 @@ void harness_request_parse(void)
 				  VP_ASSERT(same, "C37: delivered question name != parsed name"); }
 			}
 			VP_ASSERT(sr->max_udp_reply_size == c37_ref_udp, "C37: reply size limit != max(512, OPT payload size)");
-			VP_ASSERT((sr->n_additional == 1) == (c37_ref_opt == 1) && sr->n_answer == 0 && sr->n_authority == 0, "C37: OPT reply record present iff the query carried OPT");
+			if (c37_failed == 0)
+				VP_ASSERT((sr->n_additional == 1) == (c37_ref_opt == 1), "C37: OPT reply record present iff the query carried OPT");
+			VP_ASSERT(sr->n_additional <= 1 && sr->n_answer == 0 && sr->n_authority == 0, "C37: reply records other than the OPT echo present before the user callback");
 		}
 		VP_ASSERT(sr->trans_id == h.id && sr->base.flags == (int)(h.flags & 0x0110), "C37: id / RD,CD flags not taken from the query");
 		VP_ASSERT(sr->port == port && sr->client == NULL && port->refcnt == 2, "C37: request not bound to its port");
@@ -270,11 +276,9 @@ void harness_request_parse(void)
 		if (c37_failed) VP_WITNESS("dropped after an allocation failure");
 #endif
 	}
-#ifdef C37_KF_EXCLUDE_OPCODE
-	/* finding C37-notimpl-dead: with the opcode bits masked away first, non-standard opcodes are
-	 * treated like standard queries; this variant decides everything else */
-	if (verdict == C37_NOTIMPL) VP_ASSERT(c37_cb_calls == 1 || c37_failed, "C37 (known finding excluded): non-standard opcode handled like a query");
-#endif
+	/* -DC37_KF_EXCLUDE_OPCODE: what happens to non-standard opcodes (finding C37-notimpl-dead) is
+	 * decided by the obligation without that define; here such packets only have to be handled
+	 * safely and, if delivered, faithfully */
 	VP_ASSERT(port->refcnt == 1, "C37: port reference count not restored after the request is gone");
 	VP_ASSERT(c37_live == 0, "C37: memory leaked by request_parse (all paths, including allocation failures)");
 	free(port); free(pobj);
